@@ -131,6 +131,9 @@ func (h *ValueReader) HandleObjectValue(fieldname, data []byte) (p int, err erro
 	default:
 		val, pp, err = h.readSimpleValue(data, tknType)
 	}
+	if h.objVal == nil {
+		h.objVal = make(map[string]interface{})
+	}
 	h.objVal[string(fieldname)] = val
 	return p + pp, err
 }
